@@ -18,6 +18,8 @@ def gen_cases(ctx):
         cases.append(("exhaustive", t, None))
     for t in lexgen.lookalike_texts():
         cases.append(("lookalike", t, None))
+    for t in lexgen.digit_texts(ctx.rng, 20000 if ctx.thorough() else 3000):
+        cases.append(("digits", t, None))
     nrand = 200000 if ctx.thorough() else 20000
     for _ in range(nrand):
         cases.append(("random", lexgen.random_text(ctx.rng, 60), None))
@@ -103,7 +105,7 @@ def run(ctx):
         "evaluations": len(cases),
         "distinct_nontrivial": len(nontrivial),
         "rule": "texts: corpus + all texts of length<=%d over a 14-symbol alphabet covering every look-ahead class + random Unicode "
-                "+ random concatenations of SPL lexemes with separators; non-trivial = distinct text with >= 2 tokens before Eof"
+                "+ number-shaped texts (long digit runs, leading zeros, values around 2^32) + random concatenations of SPL lexemes with separators; non-trivial = distinct text with >= 2 tokens before Eof"
                 % (5 if ctx.thorough() else 4),
         "exhaustive": False,
         "input_histogram": hist,
